@@ -63,10 +63,9 @@ Theorem C09_constructor_is_model_constructor_user_alpha : forall P M A C MU Z DE
                                      t_zfactor := Z; t_alpha := Some A; t_density := DENS |} p_i).
 Proof.
   intros. unfold flowproperties_init_short, fp_init. cbn [t_pressure t_pseudopressure t_compressibility t_viscosity t_zfactor t_alpha t_density].
-  change (sdiv 1 M) with (map (fun m => ndiv NumR (n1 NumR) m) M).
-  destruct (interp1d NumR Strict P _ p_i) as [factor|]; [|reflexivity]. cbn [obind].
-  change (muls M factor) with (map (fun m => nmul NumR m factor) M).
-  destruct (interp1d NumR Strict P (map (fun m => nmul NumR m factor) M) p_i) as [mi|]; [|reflexivity]. cbn [obind option_map].
+  destruct (interp1d NumR Strict P M p_i) as [mpi|]; [|reflexivity]. cbn [obind].
+  change (muls M (1 / mpi)) with (map (fun m => nmul NumR m (ndiv NumR (n1 NumR) mpi)) M).
+  destruct (interp1d NumR Strict P (map (fun m => nmul NumR m (ndiv NumR (n1 NumR) mpi)) M) p_i) as [mi|]; [|reflexivity]. cbn [obind option_map].
   unfold view. cbn [fp_m_i fp_mscaled fp_alpha fp_alpha_lo fp_alpha_hi]. rewrite lmin_fold, lmax_fold. reflexivity.
 Qed.
 Print Assumptions C09_constructor_is_model_constructor_user_alpha.
